@@ -232,6 +232,7 @@ pub fn run(ctx: &Ctx) -> Report {
     ("directory-with-trailing-slash", "out/", "out"),
     ("absolute-directory", "<ABS>/out", "out"),
     ("a-directory-where-a-script-goes", "out", "out"),
+    ("documented-names-are-links-to-files-elsewhere", "out", "store"),
   ] {
     for shell in [None, Some("fish"), Some("powershell")] {
       let name = format!("{label}:{}", shell.unwrap_or("all"));
@@ -253,6 +254,14 @@ pub fn run(ctx: &Ctx) -> Report {
       let _ = std::os::unix::fs::symlink("real-out", cwd.join("link-out"));
       if label == "a-directory-where-a-script-goes" {
         std::fs::create_dir_all(cwd.join("out/_imdl.ps1")).unwrap();
+      }
+      if label == "documented-names-are-links-to-files-elsewhere" {
+        // a dotfile manager's layout: what is written goes through the link, and nothing is left beside it
+        std::fs::create_dir_all(cwd.join("store")).unwrap();
+        for (_, file) in SHELLS {
+          std::fs::write(cwd.join("store").join(file), b"# an older script\n").unwrap();
+          let _ = std::os::unix::fs::symlink(format!("../store/{file}"), cwd.join("out").join(file));
+        }
       }
       let mut bin = ctx.imdl.clone();
       if label == "binary-under-another-name" {
